@@ -1719,6 +1719,11 @@ class InequalitySubsetState(SubsetState):
         return '<%s: %s>' % (self.__class__.__name__, self)
 
 
+@memoize
+def _floodfill_mask(data, att, start_coords, threshold):
+    return floodfill(data[att], start_coords, threshold)
+
+
 class FloodFillSubsetState(MaskSubsetState):
     """
     A subset representing a flood-fill operation, which is computed on-the-fly.
@@ -1737,9 +1742,6 @@ class FloodFillSubsetState(MaskSubsetState):
         ``start_value * (2 -threshold)`` to ``start_value * threshold`` where
         ``start_value`` is the value of the data at ``start_coords``.
     """
-
-    # TODO: we need to recompute the mask if the numerical values of the
-    # data changes.
 
     def __init__(self, data, att, start_coords, threshold):
 
@@ -1803,19 +1805,13 @@ class FloodFillSubsetState(MaskSubsetState):
         self._threshold = value
 
     def _compute_mask(self):
-        mask = floodfill(self.data[self.att],
-                         self.start_coords, self.threshold)
-        self._mask_cache = (self._hash, mask)
-
-    @property
-    def _hash(self):
-        return self.data, self.att, self.start_coords, self.threshold, self.cids
+        return self.mask
 
     @property
     def mask(self):
-        if self._mask_cache[0] != self._hash:
-            self._compute_mask()
-        return self._mask_cache[1]
+        # The mask is memoized (rather than stored on the state) so that it
+        # is re-computed when the values of the dataset change.
+        return _floodfill_mask(self.data, self.att, tuple(self.start_coords), self.threshold)
 
     @property
     def attributes(self):
@@ -1843,7 +1839,6 @@ class FloodFillSubsetState(MaskSubsetState):
         self._start_coords = tuple(context.object(rec['start_coords']))
         self._threshold = float(context.object(rec['threshold']))
         self._cids = []
-        self._mask_cache = (None, None)
         return self
 
     def __setgluestate_callback__(self, context):
